@@ -36,8 +36,8 @@ var ReqFields = []Field{
 	{"host", []string{"canon", "absent", "lower", "upper", "mixed", "padded", "dup-same", "triple-same", "dup-conflict"}},
 	{"upgrade", []string{"canon", "absent", "lower", "upper", "mixed", "padded", "case", "wrong", "dup-same", "triple-same", "dup-conflict"}},
 	{"connection", []string{"canon", "absent", "lower", "upper", "mixed", "padded", "case", "CASE", "wrong", "dup-same", "triple-same", "dup-conflict", "first", "middle", "last", "nearmiss", "list-without"}},
-	{"wsversion", []string{"canon", "absent", "lower", "upper", "mixed", "padded", "wrong", "dup-same", "triple-same", "dup-conflict", "empty"}},
-	{"key", []string{"canon", "absent", "lower", "upper", "mixed", "padded", "23", "25", "nonb64", "dup-same", "triple-same", "dup-conflict"}},
+	{"wsversion", []string{"canon", "absent", "lower", "upper", "mixed", "padded", "wrong", "dup-same", "triple-same", "dup-conflict", "empty", "foldname"}},
+	{"key", []string{"canon", "absent", "lower", "upper", "mixed", "padded", "23", "25", "nonb64", "dup-same", "triple-same", "dup-conflict", "foldname"}},
 	{"protocol", []string{"absent", "a", "a, b", "b,a", "malformed", "two-headers", "three-headers", "many"}},
 	{"extensions", []string{"absent", "one", "two", "malformed", "pmd", "two-headers", "three-headers", "many"}},
 	{"extra", []string{"none", "before", "between", "after"}},
@@ -160,6 +160,11 @@ func headerLines(canonName, canonValue, variant string, alt map[string]string, c
 		return nil
 	case "canon", "lower", "upper", "mixed":
 		return []hline{{nameCase(canonName, variant), canonValue}}
+	case "foldname":
+		// the header is absent; in its place stands one whose name differs only by characters
+		// that Unicode case folding (not ASCII case folding) identifies with s and k
+		r := strings.NewReplacer("S", "\u017f", "s", "\u017f", "K", "\u212a", "k", "\u212a")
+		return []hline{{r.Replace(canonName), canonValue}}
 	case "padded":
 		return []hline{{canonName, " \t" + canonValue + "\t "}}
 	case "dup-same":
@@ -256,7 +261,7 @@ func (r Req) Build() []byte {
 // Key returns the key the server must use for Sec-WebSocket-Accept ("" if absent / not 24 chars).
 func (r Req) Key() string {
 	switch r.V("key") {
-	case "absent", "23", "25":
+	case "absent", "23", "25", "foldname":
 		return ""
 	case "nonb64":
 		return "!!!!!!!!!!!!!!!!!!!!!!!!"
@@ -320,7 +325,7 @@ func (r Req) Judge(protoSelector, extSelector bool) Verdict {
 		v.Statuses[400] = true
 	}
 	switch r.V("wsversion") {
-	case "absent":
+	case "absent", "foldname":
 		fault(400, "wsversion")
 	case "wrong", "empty":
 		fault(426, "wsversion")
@@ -331,7 +336,7 @@ func (r Req) Judge(protoSelector, extSelector bool) Verdict {
 		v.Statuses[400] = true
 	}
 	switch r.V("key") {
-	case "absent", "23", "25":
+	case "absent", "23", "25", "foldname":
 		fault(400, "key")
 	case "nonb64":
 		v.Open = true
